@@ -24,7 +24,41 @@ class DispatchWalker(lib_accessor.AccWalker):
                                                          'yaclib::detail::Core::Done'):
             # the Result under dispatch is the first parameter of CallResolveState
             key = ('l', st.depth, fn.params[0])
-            st.events.append((n['cn'].split('::')[-1], self.get_set(st, key), fn.loc(n)))
+            st.events.append((n['cn'].split('::')[-1], self.get_set(st, key), fn.loc(n),
+                              self.arg_class(fn, n, st, key)))
+
+    def arg_class(self, fn, n, st, key):
+        """what a dispatch action is given: 'whole' (the Result under dispatch itself), 'V' / 'X' / 'R' (the matching
+        alternative taken out of it: r.Value() / .Exception() / .Error() / std::get<T>(r.Internal())), or 'other'"""
+        if not n.get('args'):
+            return 'other'
+        i = n['args'][0]
+        for _ in range(8):
+            i = fn.strip(i)
+            m = fn.nodes[i]
+            if m['k'] == 'CallExpr' and m.get('cn') in lib_accessor.TRANSPARENT and m.get('args'):
+                i = m['args'][0]
+                continue
+            if m['k'] in ('MaterializeTemporaryExpr', 'CXXBindTemporaryExpr', 'ExprWithCleanups') and m.get('ch'):
+                i = m['ch'][0]
+                continue
+            break
+        m = fn.nodes[i]
+        if self.obj(fn, i, st) == key:
+            return 'whole'
+        if m['k'] == 'CXXMemberCallExpr' and m.get('obj') is not None and self.obj(fn, m['obj'], st) == key:
+            for name, letter in lib_accessor.ACC.items():
+                if self.is_result_method(m, name):
+                    return letter
+        if m['k'] == 'CallExpr' and m.get('cn') == 'std::get' and m.get('args') and m.get('cta'):
+            inner = fn.sn(m['args'][0])
+            while inner is not None and inner['k'] == 'CallExpr' and inner.get('cn') in lib_accessor.TRANSPARENT:
+                inner = fn.sn(inner['args'][0])
+            if inner is not None and inner['k'] == 'CXXMemberCallExpr' and inner['cn'].endswith('::Internal') and \
+                    self.obj(fn, inner['obj'], st) == key:
+                t = m['cta'][0]
+                return 'X' if 'exception_ptr' in t else 'R'
+        return 'other'
 
 
 def check_dispatch(ctx, fb, rd):
@@ -43,6 +77,17 @@ def check_dispatch(ctx, fb, rd):
                 bad = 'a path performs %d dispatch actions (expected exactly one of invoke / pass-through)' % len(ev)
                 break
             (inv if ev[0][0] == 'CallResolveAsync' else pas).update(ev[0][1])
+            # what is handed on: the functor gets the matching alternative (or the whole Result), and a skipped
+            # callback passes its input through unchanged — the same alternative of the same Result, or all of it
+            states, cls = ev[0][1], ev[0][3]
+            if cls == 'other' or (cls != 'whole' and set(states) != {cls}):
+                bad = '%s on input state(s) {%s} is given %s instead of %s' % (
+                    'the functor' if ev[0][0] == 'CallResolveAsync' else 'the pass-through (skipped callback)',
+                    ','.join(sorted(states)),
+                    'something that is not taken from the input Result' if cls == 'other' else 'alternative ' + cls,
+                    'the input Result / its matching alternative: the failure (or value) does not pass through '
+                    'unchanged')
+                break
         key = 'R-DISPATCH Core::CallResolveState'
         ctx.instance(rd, key + ' :: ' + f.cls[:150], dict(function=f.full[:200], invoke_on=''.join(sorted(inv)),
                                                            pass_on=''.join(sorted(pas))))
@@ -57,6 +102,45 @@ def check_dispatch(ctx, fb, rd):
                       ','.join(sorted(lib_accessor.ALL - inv - pas))
         if bad:
             ctx.report(rd, key, f.where, bad, 'instantiation: ' + f.full[:300])
+
+
+def check_invoke_once(ctx, fb, rule):
+    """R-INVOKE: a step invokes its callback exactly once when it runs it, and completes with what the callback
+    returned (Unit for a void callback): per instantiation of Core::CallResolveVoid / CallResolveAsync."""
+    n = 0
+    for f in fb.fn.values():
+        if f.cfg is None or not f.file.endswith('algo/detail/core.hpp'):
+            continue
+        if f.qn == 'yaclib::detail::Core::CallResolveVoid':
+            key = 'R-INVOKE Core::CallResolveVoid'
+            invs = functor_invocations(f)
+            ctx.instance(rule, key + ' :: ' + f.cls[:120], dict(invocations=len(invs), returns=f.ret[:60]))
+            n += 1
+            if len(invs) != 1:
+                ctx.report(rule, key, f.where, 'the stored callback is invoked %d times by one run of the step' %
+                           len(invs), 'instantiation: ' + f.full[:300])
+                continue
+            t = invs[0].get('t', '')
+            rets = [x for x in f.own_nodes() if x['k'] == 'ReturnStmt' and x.get('ch')]
+            if t == 'void':
+                if f.ret != 'yaclib::Unit':
+                    ctx.report(rule, key, f.where, 'a void callback that ran must complete the step with Unit (a '
+                               'value); it completes with %s' % f.ret, 'instantiation: ' + f.full[:300])
+            else:
+                direct = [r for r in rets if invs[0]['i'] in [f.strip(r['ch'][0])] + list(f.descendants(r['ch'][0]))]
+                if len(rets) != 1 or not direct:
+                    ctx.report(rule, key, f.where, 'the step must complete with what its callback returned',
+                               'instantiation: ' + f.full[:300])
+        elif f.qn == 'yaclib::detail::Core::CallResolveAsync':
+            key = 'R-INVOKE Core::CallResolveAsync'
+            calls = [c for c in f.calls() if c['cn'] == 'yaclib::detail::Core::CallResolveVoid']
+            ctx.instance(rule, key + ' :: ' + f.cls[:120], dict(invocations=len(calls)))
+            n += 1
+            if len(calls) != 1:
+                ctx.report(rule, key, f.where, 'the callback is run %d times by one run of the step' % len(calls),
+                           'instantiation: ' + f.full[:300])
+    if n < 20:
+        ctx.broken('R-INVOKE: only %d CallResolveVoid / CallResolveAsync instantiations' % n)
 
 
 def in_try_with_catch_all(fn, i, bad_handlers=None):
@@ -329,6 +413,8 @@ def run(ctx):
                    'is statically unique or provably the last observer', minimum=0)
     rres = ctx.rule('R-RESULT', 'Result<V,E>: variant alternative order == ResultState enumerator order; constructors and '
                     'accessors take the alternative of their kind', minimum=6)
+    rinv = ctx.rule('R-INVOKE', 'a step that runs its callback invokes it exactly once and completes with what it '
+                    'returned (Unit for a void callback)', minimum=40)
     from rules import lib_core
     for cfg, fb in sorted(fbs.items()):
         ctx.guard(lambda: check_result(ctx, fb, rres))
@@ -336,6 +422,7 @@ def run(ctx):
         fns = [f for f in lib_accessor.functions_with_accessors(fb, [CORE])]
         ctx.guard(lambda: lib_accessor.check(ctx, fb, ra, fns))
         ctx.guard(lambda: check_dispatch(ctx, fb, rd))
+        ctx.guard(lambda: check_invoke_once(ctx, fb, rinv))
         ctx.guard(lambda: check_entries(ctx, fb, re_))
         ctx.guard(lambda: check_try(ctx, fb, rt))
         ctx.guard(lambda: lib_head.check(ctx, fb, cfg, rh, None))
